@@ -6,7 +6,8 @@ from . import common
 
 LEVEL = "other"
 EXPLANATION = ("PARTIAL, every obligation bounded (K5). Decided: (1) the outer CompoundParser given the assumed contract of the scanner "
-               "(compositions of <= 3 / 5 elements) - elements ascending as scanned, fractions are numbers, molar mass and atom total positive, NULL iff "
+               "(compositions of <= 3 / 5 elements) - elements ascending as scanned, molar mass and atom total BIT-EXACTLY the sums over the elements, "
+               "mass fraction BIT-EXACTLY count x atomic weight / molar mass, fractions are numbers, molar mass and atom total positive, NULL iff "
                "exactly one error, elements without an atomic weight rejected, the scanner runs under the C numeric locale and the caller's locale is "
                "restored (ghost model of setlocale), temporaries freed on both outcomes (--memory-leak-check); (2) add_compound_data for 1-2 x 1-2 "
                "(thorough: 1-3 x 1-3) elements: the result lists exactly the union of the two element lists, strictly ascending; (3) the REAL scanner "
@@ -19,7 +20,7 @@ EXPLANATION = ("PARTIAL, every obligation bounded (K5). Decided: (1) the outer C
                "enclosing multipliers - computed by an independent recursive-descent evaluator (props/C07.py: expand) and covering coinciding "
                "symbols, repeats across groups, nested groups and fractional subscripts. "
                "NOT decided by this family: acceptance/rejection of arbitrary strings, atom counts for formulas outside the shape list or with symbolic "
-               "subscripts, invariance under reordering and group expansion (only as far as both rewrites are in the shape list), bit-exact molar mass / mass fractions and the weighted sums wA*fA + wB*fB of add_compound_data (attempted in the "
+               "subscripts, invariance under reordering and group expansion (only as far as both rewrites are in the shape list), that the fractions sum to 1 (rounding), and the weighted sums wA*fA + wB*fB of add_compound_data (attempted in the "
                "thorough tier, no back end finishes even for 1 x 1 elements).")
 ASSUMPTIONS = [
     "assumed contract of CompoundParserSimple (for the lemmas on CompoundParser only): 0 + exactly one error, or 1..N strictly ascending atomic numbers in 1..107 with atom counts in [1e-6, 1e6) in one malloc'ed array",
@@ -78,9 +79,9 @@ def groups(sc, tier):
         kw2["harness_defines"] = kw["harness_defines"] + ["-DNEL=%d" % k]
         gs.append(Group("C07.K5.CompoundParser.%d_elements" % k, "K5", "lemma_CompoundParser", functions=["CompoundParser", "FreeCompoundData"], **kw2))
         kw3 = dict(kw2)
-        kw3["harness_defines"] = kw2["harness_defines"] + ["-DVALUE_LEMMA"]
+        kw3["harness_defines"] = kw2["harness_defines"] + ["-DVALUE_LEMMA", "-DSCAN_OK=1"]
         gs.append(Group("C07.K5.CompoundParser_values.%d_elements" % k, "K5", "lemma_CompoundParser", functions=["CompoundParser"],
-                        attempt_only=True, note="bit-exact molar mass and mass fractions: no back end finishes (heap arrays between code and specification)", **kw3))
+                        note="bit-exact molar mass, atom total and mass fractions (scanner outcome fixed to success: single path through the scanner stub)", **kw3))
     shapes = [(2, 2), (1, 2), (2, 1)] if tier != "thorough" else [(a, b) for a in (1, 2, 3) for b in (1, 2, 3)]
     for a, b in shapes:
         gs.append(Group("C07.K5.add_compound_data.%dx%d" % (a, b), "K5", "lemma_add_compound_data", sources=["src/xraylib-parser.c", "src/xraylib-aux.c"],
